@@ -30,9 +30,25 @@ def check_case(ck, case, spec):
     test = case.test
     key = fn_key(case)
     snap = snapshot_inputs(case)
-    out = run_case(ck, case)
+    out = run_case(ck, case, allow_refused=True)
     if spec is not None and spec.rejects:
         return
+    if out.kind == 'refused':
+        # symbolic interpretation refused: the same obligations on exact representative data
+        from ..qc import concrete_envs, concretised
+        ck.rule_counts['concretised-fallback'] = ck.rule_counts.get('concretised-fallback', 0) + 1
+        for env in concrete_envs([case], ck.rng, 4):
+            c2 = concretised(case, env)
+            snap2 = snapshot_inputs(c2)
+            o2 = run_case(ck, c2)
+            check_outcome(ck, c2, spec, snap2, o2)
+        return
+    check_outcome(ck, case, spec, snap, out)
+
+
+def check_outcome(ck, case, spec, snap, out):
+    test = case.test
+    key = fn_key(case)
     cls = case.meta.get('class', '')
     if out.kind == 'raise':
         site = ''
